@@ -41,15 +41,15 @@ func init() {
 	)
 	addSelfTests("C26",
 		mutation{"ownership-result-ignored", "tun/server/client_rpc.go", "	if !b {\n		return nil, twirp.PermissionDenied.Errorf(\"hostname %s is not registered\", hostname)\n	}\n\n	lookupJobs", "	_ = b\n\n	lookupJobs", "publish-gate"},
-		mutation{"client-from-request", "tun/server/client_rpc.go", "				ClientDestination: verifiedClient,", "				ClientDestination: req.GetClient(),", "publish-provenance"},
+		mutation{"client-from-request", "tun/server/client_rpc.go", "				ClientDestination: verifiedClient,", "				ClientDestination: append(req.GetServers(), verifiedClient)[0],", "publish-provenance"},
 		mutation{"bound-off-by-one", "tun/server/client_rpc.go", "	if len(requested) > tun.NumRedundantLinks {", "	if len(requested) > tun.NumRedundantLinks+1 {", "publish-gate"},
 		mutation{"unpublish-no-ownership", "tun/server/client_rpc.go", "	if !b {\n		return twirp.PermissionDenied.Errorf(\"hostname %s is not registered\", hostname)\n	}\n\n	unpublishJobs", "	_ = b\n\n	unpublishJobs", "unpublish-gate"},
 		mutation{"release-lease-not-deferred", "tun/server/client_rpc.go", "	defer s.Chord.Release(ctx, []byte(leaseKey), lease)\n", "	_ = lease\n", "lease-pairing"},
 		mutation{"slot-zero-based", "tun/server/client_rpc.go", "			key := tun.RoutingKey(hostname, i+1)\n			if err := s.Chord.Put(fnCtx", "			key := tun.RoutingKey(hostname, i)\n			if err := s.Chord.Put(fnCtx", "publish-provenance"},
 	)
 	addSelfTests("C29",
-		mutation{"cname-mismatch-ignored", "tun/server/acme_rpc.go", "	if cname != content {\n		return nil, twirp.FailedPrecondition.Errorf(\"unexpected CNAME content: %s\", cname)\n	}\n", "", "bind-gate"},
-		mutation{"found-for-any-client", "tun/server/acme_rpc.go", "		if !bytes.Equal(bundle.GetClientToken().GetToken(), token.GetToken()) ||\n			bundle.GetClientIdentity().GetId() != client.GetId() ||", "		if bundle.GetClientIdentity().GetId() != client.GetId() ||", "checkacme"},
+		mutation{"cname-mismatch-ignored", "tun/server/acme_rpc.go", "	if cname != content {\n		return nil, twirp.FailedPrecondition.Errorf(\"unexpected CNAME content: %s\", cname)\n	}\n", "	if cname != content {\n		s.Logger.Warn(\"unexpected CNAME content\")\n	}\n", "bind-gate"},
+		mutation{"found-for-any-client", "tun/server/acme_rpc.go", "		if !bytes.Equal(bundle.GetClientToken().GetToken(), token.GetToken()) ||\n			bundle.GetClientIdentity().GetId() != client.GetId() ||", "		if !bytes.Equal(token.GetToken(), token.GetToken()) ||\n			bundle.GetClientIdentity().GetId() != client.GetId() ||", "checkacme"},
 		mutation{"pow-for-other-subject", "tun/server/acme_rpc.go", "			return hostname\n		},", "			return s.Apex\n		},", "checkacme"},
 		mutation{"record-from-request-token", "tun/server/acme_rpc.go", "	name, content := acme.GenerateCustomRecord(hostname, s.Acme, token.GetToken())\n\n	lookupCtx", "	name, content := acme.GenerateCustomRecord(hostname, s.Acme, req.GetProof().GetPubKey())\n\n	lookupCtx", "bind-provenance"},
 		mutation{"apex-check-dropped", "tun/server/acme_rpc.go", "	if strings.Contains(hostname, s.Acme) || strings.Contains(hostname, s.Apex) {", "	if strings.Contains(hostname, s.Acme) {", "checkacme"},
